@@ -2,7 +2,7 @@ SPECIFICATION TSpec
 CONSTANTS
   MaxW = 4
   Keys = {1, 2, 3}
-  MaxJ = 9
+  MaxJ = 11
   MaxInc = 20
   LbBig = 1000000
   FixRetire = FALSE
